@@ -186,11 +186,12 @@ static void run_spin_scenario(const char *mode, long long idx, int nthreads, int
 	count("spin_schedules");
 	note_distinct(mix(hash_str(mode), w.sig));
 	rec.counters["sched_points"] += w.steps; rec.counters["sched_switches"] += w.switches;
+	{ static uint64_t max_steps = 0; if(out.kind == sched::Outcome::Ok && w.steps > max_steps) { max_steps = w.steps; rec.notes[std::string("max_points_in_a_completing_schedule:shard") + std::to_string(opt.shard)] = std::to_string(max_steps) + " (budget " + std::to_string(w.step_limit) + ")"; } }
 	std::string tail; for(size_t i = w.trace.size() > 40 ? w.trace.size() - 40 : 0; i < w.trace.size(); i++) tail += w.trace[i] + " ";
 	auto report = [&](const std::string &key, const std::string &what) { case_detail("%s threads=%d pairs=%d trace: %s", LockName<L>::name, nthreads, pairs, tail.c_str()); violation(std::string("C12:sched:") + LockName<L>::name + ":" + key, what); };
 	if(mon.bad) { auto p = mon.why.find('|'); report(mon.why.substr(0, p), mon.why.substr(p + 1)); }
 	else if(out.kind == sched::Outcome::Deadlock || out.kind == sched::Outcome::Livelock) report(out.kind == sched::Outcome::Deadlock ? "deadlock" : "no-hand-over", std::string(LockName<L>::name) + ": the lock is never acquired again although its holder released it / nobody holds it: " + out.detail);
-	else if(out.kind == sched::Outcome::StepLimit) count("inconclusive_step_limit");
+	else if(out.kind == sched::Outcome::StepLimit) report("no-progress-step-budget", "a schedule did not finish within the step budget (far above any completing run): " + out.detail);
 	else if(out.kind == sched::Outcome::Panic) report("assert", "library assertion: " + out.detail);
 	else {
 		if(mon.entries != (uint64_t)nthreads * pairs) report("lost-entry", "not every lock() returned");
